@@ -3,7 +3,8 @@
 # link time where a harness asks for it) and asan (ASan+UBSan).
 REPO   ?= /repo
 FL     ?= plain
-B      := _build/$(FL)
+BUILDROOT ?= _build
+B      := $(BUILDROOT)/$(FL)
 SRCS   := $(shell sed -n '/^libppl_la_SOURCES/,/^$$/p' $(REPO)/src/Makefile.am | grep -v '^#' | grep -o '[A-Za-z0-9_-]*\.cc')
 OBJS   := $(patsubst %.cc,$(B)/lib/%.o,$(SRCS))
 INC    := -I$(REPO) -I$(REPO)/src
@@ -13,12 +14,12 @@ ifeq ($(FL),asan)
 OPT    := -O1 -g -fsanitize=address,undefined -fno-sanitize-recover=undefined -fno-omit-frame-pointer
 LDSAN  := -fsanitize=address,undefined
 else
-OPT    := -O2 -g1
+OPT    := -O2 -g1 -fno-omit-frame-pointer
 LDSAN  := -fsanitize=leak
 endif
 CXX    := g++
 KIT    := sim/kit
-HARNESSES := wd
+HARNESSES := wd obj_poly obj_shapes obj_grid
 
 all: lib $(addprefix $(B)/bin/,$(HARNESSES))
 
@@ -45,9 +46,15 @@ $(B)/bin/wd: $(B)/h/wd.o $(B)/libppl.a
 	@mkdir -p $(dir $@)
 	$(CXX) $(OPT) -o $@ $(B)/h/wd.o $(B)/libppl.a -lgmpxx -lgmp $(if $(filter asan,$(FL)),$(LDSAN),)
 
+# obj family: allocator shim inside; LSan (plain) or ASan+LSan at link time
+$(B)/bin/obj_%: $(B)/h/obj_%.o $(B)/libppl.a
+	@mkdir -p $(dir $@)
+	$(CXX) $(OPT) -o $@ $< $(B)/libppl.a -lgmpxx -lgmp $(LDSAN)
+
 clean:
 	rm -rf _build
 
 -include $(OBJS:.o=.d)
 -include $(wildcard $(B)/h/*.d) $(wildcard $(B)/k/*.d)
+.SECONDARY:
 .PHONY: all lib clean
